@@ -96,24 +96,45 @@ def check(cx):
                        for o in (s["rv"].get("o") or []) if isinstance(s["rv"].get("o"), list)) or \
                 any(any(isinstance(pe, str) and pe.startswith("." + field + ":") for pe in (o.get("c") or o.get("m") or [])[1:]) for o in [c.args[1]])
         xmax_checks = [c for c in pre if arg_reads(c, "version_xmax")]
-        # the match on layout.version_xmax that precedes everything
-        sw = [x for x in enum_switches(p, f) if x[1] == "std::option::Option" and x[0] not in body
-              and any(isinstance(pe, str) and pe.startswith(".version_xmax:") for pe in x[4][1:])]
-        good = bool(xmax_checks) and bool(somes) and bool(sw)
+
+        def reads_xmax(l):
+            ls = f.provenance_locals(l) | {l}
+            return any(any(isinstance(pe, str) and pe.startswith(".version_xmax:") for pe in (o.get("c") or o.get("m") or [])[1:])
+                       for b in f.blocks for s in b["stmts"] if s["dst"][0] in ls and isinstance(s["rv"].get("o"), list)
+                       for o in s["rv"]["o"])
+        # the same test written with an adaptor: version_xmax.is_some_and(|xmax| snapshot.is_committed_before_snapshot(xmax))
+        for c in f.calls():
+            if c.bb in body or not c.callee.startswith("std::option::Option") or c.callee.rsplit("::", 1)[-1] != "is_some_and":
+                continue
+            clo = [p.fn(t) for t in p.targets(c) if t in p.raw_fns and p.raw_fns[t].kind == "closure"]
+            if len(clo) == 1 and op_local(c.args[0]) is not None and reads_xmax(op_local(c.args[0])):
+                g = clo[0]
+                inner = g.nearest_calls(0)
+                par = [x for x in g.calls() if x.callee == icb and op_local(x.args[1]) is not None
+                       and ("param", 2) in g.nearest_calls(op_local(x.args[1]))]
+                if inner == {("call", icb)} and par:
+                    xmax_checks.append(c)
+        # gates: the branches on the result of such a test; the `deleter is visible` arm must not lead to a Some-result, and
+        # no path reaches a Some-result without either passing a gate or finding that the row has no deleter
+        gates = []
+        for c in xmax_checks:
+            for gi, g in enumerate(f.blocks):
+                t = g["term"]
+                if t["t"] == "switch" and t.get("ty") == "bool" and op_local(t["o"]) is not None:
+                    nc = f.nearest_calls(op_local(t["o"]))
+                    res = op_local({"c": c.dst})
+                    if res in (f.provenance_locals(op_local(t["o"])) | {op_local(t["o"])}) and len(nc) == 1:
+                        gates.append((gi, t))
+        no_deleter = set()      # edges (switch block, target): the row has no deleter
+        for x in enum_switches(p, f):
+            if x[1] == "std::option::Option" and x[0] not in body and any(isinstance(pe, str) and pe.startswith(".version_xmax:") for pe in x[4][1:]):
+                no_deleter.add((x[0], x[2].get("None", x[3])))
+        adaptor = any(c.callee.endswith("is_some_and") for c in xmax_checks)
+        good = bool(xmax_checks) and bool(somes) and bool(gates) and (bool(no_deleter) or adaptor)
         if good:
-            bi, _, m, oth, _ = sw[0]
-            some_t = m.get("Some", oth)
-            cb = {c.bb for c in xmax_checks}
-            good = all(f.dominates(bi, b) for b in somes)
-            # on the `deleter present` arm no Some-result is reachable without the committed-before test ...
-            good = good and not (f.reachable(some_t, blocked=cb) & set(somes))
-            # ... and none from the arm where the test said `deleter is visible`
-            for c in xmax_checks:
-                res = op_local({"c": c.dst})
-                for gi, g in enumerate(f.blocks):
-                    t = g["term"]
-                    if t["t"] == "switch" and op_local(t["o"]) == res:
-                        good = good and not (f.reachable(t["otherwise"]) & set(somes))
+            for gi, t in gates:
+                good = good and not (f.reachable(t["otherwise"], blocked={gi}) & set(somes))
+            good = good and not (f.reachable(0, blocked={gi for gi, _ in gates}, edge_filter=lambda a, b_: (a, b_) not in no_deleter) & set(somes))
         cx.verdict(good, r2, "deleted-before-snapshot-first", f.where(), "%d Some-results, none reachable past a visible deleter" % len(somes),
                    "parse_for_snapshot can return a version without first testing whether the row's deleter is visible: "
                    "an updated-then-deleted row comes back as its previous version")
